@@ -27,7 +27,8 @@ REQUIRED = ["iff_checked:plurality", "iff_checked:approval", "iff_checked:superm
             "candidate_names_contained_in_one_another", "contest_carries_a_reported_tally_when_assertions_are_made",
             "tally_taken_together_with_a_contest_of_another_n_winners", "ballots_in_pooled_batches_with_batch_means_set",
             "margin_checked:sub_collection", "contest_identifier_assigned_after_assertions_were_made", "marks_held_in_a_dict_subclass", "vote_bearing_records_flagged_phantom", "contests_of_more_than_65536_ballots",
-            "margin_from_tally_asked_while_the_test_holds_the_comparison_bound"]
+            "margin_from_tally_asked_while_the_test_holds_the_comparison_bound",
+            "supermajority_built_with_a_share_argument_that_differs_from_the_contests"]
 ASSUMPTIONS = ["shares f in {1/2,1/4,1/8} (f and 1/(2f) both dyadic) are exact in binary; inexact shares (2/3, 0.6) are only evaluated at a "
                "distance from the threshold that rounding cannot bridge", "a mark for a name that is not on the contest's "
                "candidate list (write-in) appears only on ballots with no mark for a listed candidate, so that no "
@@ -92,6 +93,7 @@ def gen_profile(rng, kind, stratum):
     prof["via_make_all"] = rng.random() < 0.4
     prof["flagged"] = rng.random() < 0.1
     prof["test_holds_comparison_bound"] = rng.random() < 0.2
+    prof["stale_share_arg"] = rng.random() < 0.15
     if rng.random() < 0.12:
         # the marks of a ballot held in a mapping that is a dict but not exactly a dict (json with object_pairs_hook, counters)
         prof["marks_container"] = rng.choice(("OrderedDict", "defaultdict", "Counter"))
@@ -235,6 +237,10 @@ def build(prof):
     for _ in range(2):
         if kind == "supermajority":
             kw = {} if prof.get("omit_share_arg") else {"share_to_win": prof["share"]}   # the contest carries the share
+            if prof.get("stale_share_arg") and kw:
+                # a caller that still passes last year's threshold: the Contest object is what carries the required share
+                # (the assorter is defined from it), so the bound must come from there too
+                kw = {"share_to_win": min(0.95, prof["share"] + 0.2)}
             asns = Assertion.make_supermajority_assertion(contest=con, winner=prof["winners"][0], loser=losers,
                                                           test=NonnegMean.alpha_mart, estim=NonnegMean.shrink_trunc, **kw)
         else:
@@ -279,6 +285,8 @@ def run_case(prof, rec):
         rec.count("marks_held_in_a_dict_subclass")
     if prof.get("flagged"):
         rec.count("vote_bearing_records_flagged_phantom")
+    if prof.get("stale_share_arg") and kind == "supermajority" and not prof.get("omit_share_arg") and not prof.get("via_make_all"):
+        rec.count("supermajority_built_with_a_share_argument_that_differs_from_the_contests")
     if any(a != b and a in b for a in cands for b in cands):
         rec.count("candidate_names_contained_in_one_another")
     if con._args_mutated:
